@@ -193,4 +193,26 @@ def drainData : Source → Bytes
   | .interrupted :: r => drainData r
   | .fail _ :: _ => []
 
+
+open Ipp.Spec in
+partial def readWVal : SExp → Option WVal
+  | .list [.atom "p", .atom t, .atom b] => do pure (.plain (← u8 t) (← hexToBytes b))
+  | .list (.atom "c" :: ms) => (ms.mapM fun (m : SExp) => match m with
+      | SExp.list (SExp.atom k :: vs) => do pure (← hexToBytes k, ← vs.mapM readWVal)
+      | _ => none).map .coll
+  | _ => none
+
+open Ipp.Spec in
+def readWMsg : SExp → Option WMsg
+  | .list (.atom "wmsg" :: .atom v :: .atom o :: .atom i :: gs) => do
+      let groups ← gs.mapM fun (g : SExp) => match g with
+        | SExp.list (SExp.atom "wg" :: SExp.atom t :: as) => do
+            let attrs ← as.mapM fun (a : SExp) => match a with
+              | SExp.list (SExp.atom "wa" :: SExp.atom n :: vs) => do pure (⟨← hexToBytes n, ← vs.mapM readWVal⟩ : WAttr)
+              | _ => none
+            pure (⟨← u8 t, attrs⟩ : WGroup)
+        | _ => none
+      pure ⟨UInt16.ofNat (← hexToNat v), UInt16.ofNat (← hexToNat o), UInt32.ofNat (← hexToNat i), groups⟩
+  | _ => none
+
 end Ipp.Text
